@@ -13,7 +13,7 @@ from orquesta import statuses as S
 from vt import defs
 from vt.env import Env, Policy, Violation
 from vt.harness.common import ob
-from vt.monitors import C02Truth, C03Quiescence, C09Pause, count
+from vt.monitors import C02Truth, C03Quiescence, C09Pause, C10Cancel, count
 
 
 class HeldEnv(Env):
@@ -63,7 +63,7 @@ class HeldEnv(Env):
                 break
             idx = self.ch.pick("r%d" % self.step, min(len(self.inflight), p.max_inflight))
             act = self.inflight[idx]
-            if act.task in ("a", "b") and act.task not in held_once and self.ch.flag("hold%d" % self.step):
+            if act.item is None and act.task in ("a", "b") and act.task not in held_once and self.ch.flag("hold%d" % self.step):
                 held_once.add(act.task)
                 self.hold(idx, S.PAUSED if self.status() == S.PAUSING else S.PENDING)
             else:
@@ -79,17 +79,17 @@ class HeldEnv(Env):
         return self.status()
 
 
-MONITORS = {"C02": lambda: [C02Truth()], "C03": lambda: [C03Quiescence()], "C09": lambda: [C09Pause()]}
+MONITORS = {"C02": lambda: [C02Truth()], "C03": lambda: [C03Quiescence()], "C09": lambda: [C09Pause()], "C10": lambda: [C10Cancel()]}
 
 
-def held_actions(ch, ctx, prop, steps=7, control="pause", twin=False):
-    wf = defs.get("D21")
+def held_actions(ch, ctx, prop, steps=7, control="pause", twin=False, did="D21"):
+    wf = defs.get(did)
     env = HeldEnv(ch, wf, prop, monitors=MONITORS[prop](), policy=Policy(steps=steps, control=control))
     env.counters = ctx["counters"]
     try:
         env.run()
     except Violation as v:
-        v.definition = "D21"
+        v.definition = did
         v.log = list(env.log)
         v.calls = list(env.calls)
         raise
